@@ -3,6 +3,7 @@
 package c02
 
 import (
+	"encoding/json"
 	"fmt"
 	"strings"
 	"testing"
@@ -190,6 +191,12 @@ func genBatch(t *rapid.T) Case {
 				code := rapid.SampledFrom([]int{-32600, -32700, -32601, 5}).Draw(t, "hcode")
 				idp := rapid.SampledFrom([]string{``, `"id":null,`, `"id":77,`}).Draw(t, "hid")
 				ms = append(ms, fmt.Sprintf(`{"jsonrpc":"2.0",%s"method":"err","params":{"k":%d,"c":%d}}`, idp, 500000+i*10+j, code))
+			} else if rapid.IntRange(0, 11).Draw(t, "rawresult") == 0 {
+				// calls whose handler returns a pre-encoded result, sound or broken:
+				// what goes out is valid JSON either way (the result, or an error)
+				raw := rapid.SampledFrom([]string{`{"a":`, `1 2`, `[1,2`, ``, ` `, `{"a":1}`, " [1, 2]\n", `"x<y"`, `nul`, `{"a":1}}`, `null`, `{"a":{"b":[]}} `}).Draw(t, "raw")
+				rb, _ := json.Marshal(raw)
+				ms = append(ms, fmt.Sprintf(`{"jsonrpc":"2.0","id":%d,"method":"raw","params":{"k":%d,"raw":%s}}`, 600+i*10+j, 600000+i*10+j, rb))
 			} else {
 				ms = append(ms, gen.NthMember(rapid.IntRange(0, gen.ProductSize()-1).Draw(t, "m")))
 			}
